@@ -245,7 +245,7 @@ def run(ck):
         ck.mc("MC_Edwards", "MC_Edwards_109.cfg", note="order-104 curve", workers=8)
     ck.mc("MC_Api", "MC_Api_29.cfg", note="API histories over a 2-register file, order-40 curve, representation invariant along every history", workers=8)
     scripts = api_histories(ck, 40 if quick else 400, 30)
-    backends = ["s64", "v2", "v512"] if quick else ["s64", "s32", "f64", "f32", "v2", "v512"]
+    backends = ["s64", "s32", "v2", "v512"] if quick else ["s64", "s32", "f64", "f32", "v2", "v512"]
     bins = build_many([(b, True, "release", ()) for b in backends], jobs=3)
     ops = gen(ck.rng, quick, scripts)
     traces = []
